@@ -34,9 +34,13 @@ def make_object(spec, uuid, dim="3d"):
         roi = (int(8 * (spec["pos"][0] + 64)), int(8 * (spec["pos"][1] + 64)), int(8 * spec["size"][0]) + 1, int(8 * spec["size"][1]) + 1)
         return DynamicObject2D(unix_time=100, frame_id=M["FrameID"].CAM_FRONT, semantic_score=spec.get("conf", 1.0),
                                semantic_label=M["Label"](lab, spec["label"], []), roi=roi, uuid=uuid)
+    ori = M["Quaternion"](axis=(0.0, 0.0, 1.0), radians=spec["yaw"])
+    if spec.get("tilt"):
+        # a slightly tilted box (roll, pitch): its heading is still the yaw of the documented yaw-pitch-roll decomposition
+        ori = ori * M["Quaternion"](axis=(0.0, 1.0, 0.0), radians=spec["tilt"][1]) * M["Quaternion"](axis=(1.0, 0.0, 0.0), radians=spec["tilt"][0])
     return M["DynamicObject"](
         unix_time=100, frame_id=M["FrameID"].BASE_LINK,
-        position=tuple(spec["pos"]), orientation=M["Quaternion"](axis=(0.0, 0.0, 1.0), radians=spec["yaw"]),
+        position=tuple(spec["pos"]), orientation=ori,
         shape=M["Shape"](M["ShapeType"].BOUNDING_BOX, tuple(spec["size"])), velocity=(0.0, 0.0, 0.0),
         semantic_score=spec.get("conf", 1.0), semantic_label=M["Label"](lab, spec["label"], []), uuid=uuid,
     )
@@ -78,9 +82,11 @@ def gen_spec(rng, label=None, near=None, labels=None):
     return {"label": lab, "pos": pos, "size": size, "yaw": yaw}
 
 
-def gen_scene(rng, n=None, tie_heavy=False, labels=None):
-    """labels (optional, default None = the historical label mix): see gen_spec"""
+def gen_scene(rng, n=None, tie_heavy=False, labels=None, tilt_prob=0.0):
+    """labels (optional, default None = the historical label mix): see gen_spec; tilt_prob (optional, default 0 = no extra random draw):
+    probability that the objects of the scene are slightly tilted (roll / pitch), estimate and ground truth differently"""
     n = rng.randint(0, 14) if n is None else n
+    tilted = tilt_prob > 0 and rng.random() < tilt_prob
     results = []
     for _ in range(n):
         gt = gen_spec(rng, labels=labels) if rng.random() < 0.8 else None
@@ -89,6 +95,10 @@ def gen_scene(rng, n=None, tie_heavy=False, labels=None):
             est = gen_spec(rng, label=gt["label"] if same and gt["label"] != "false_positive" else None, near=gt, labels=labels)
         else:
             est = gen_spec(rng, labels=labels)
+        if tilted:
+            est["tilt"] = [rng.uniform(-0.06, 0.06), rng.uniform(-0.06, 0.06)]
+            if gt is not None:
+                gt["tilt"] = [rng.uniform(-0.06, 0.06), rng.uniform(-0.06, 0.06)]
         est["conf"] = rng.choice([0.5, 0.75, 0.25]) if tie_heavy else rng.randint(0, 64) / 64
         if not tie_heavy and 0 < est["conf"] < 1 and rng.random() < 0.2:
             # distinct but within float32 resolution of a lattice value (the ranking is by the exact confidence)
@@ -102,6 +112,18 @@ def threshold_for(rng, mode, zero=False):
     if MAXIMIZE[mode]:
         return rng.choice([0.0, 0.1, 0.25, 0.5, 0.75, 1.0, 1.0 / 3])
     return rng.choice([0.125, 0.5, 1.0, 1.25, 2.0, 2.5, 5.0, 10.0, 0.625] + ([0.0] if zero else []))
+
+
+def heading_weight_ref(result):
+    """1 - d / pi with d the smallest difference of the two yaw angles (yaw of the documented yaw-pitch-roll decomposition of each
+    orientation), computed here from the orientations alone -- independent of TPMetricsAph / get_heading_bev; None without ground truth
+    or for 2-D objects"""
+    gt, est = result.ground_truth_object, result.estimated_object
+    if gt is None or getattr(getattr(est, "state", None), "orientation", None) is None or getattr(getattr(gt, "state", None), "orientation", None) is None:
+        return None
+    d = (est.state.orientation.yaw_pitch_roll[0] - gt.state.orientation.yaw_pitch_roll[0]) % (2 * math.pi)
+    d = min(d, 2 * math.pi - d)
+    return 1.0 - d / math.pi
 
 
 def facts(scene, results, mode, target_labels, thresholds, tp_metrics):
@@ -121,7 +143,7 @@ def facts(scene, results, mode, target_labels, thresholds, tp_metrics):
             "rid": i, "conf": r.estimated_object.semantic_score, "has_gt": gt is not None,
             "gt_fp": bool(gt is not None and gt.semantic_label.is_fp()), "lab_ok": bool(r.is_label_correct),
             "thr": thr, "matching": None if mt is None else {"value": mt.value},
-            "weight": tp_metrics.get_value(r),
+            "weight": tp_metrics.get_value(r), "weight_is_heading": type(tp_metrics).__name__ == "TPMetricsAph", "weight_ref": heading_weight_ref(r),
             "est_label": scene["results"][i]["est"]["label"],
             "gt_label": scene["results"][i]["gt"]["label"] if scene["results"][i]["gt"] else None,
         })
